@@ -195,20 +195,23 @@ INTERNAL_FAULTS = (
      for h in ('missing', 'empty', 'garbage', 'truncated', 'directory',
                'dest-garbage', 'dest-truncated-png')] +
     [{'kind': 'RECURSION', 'limit': n} for n in (60, 90, 120, 160, 220)] +
-    [{'kind': 'ROM-DEST'}, {'kind': 'ROM-DEST'}]
+    [{'kind': 'ROM-DEST'}, {'kind': 'ROM-DEST'}, {'kind': 'TMP-ERR'},
+     {'kind': 'TMP-ERR'}]
 )
 CLI_INTERNAL_FAULTS = (
     [{'kind': 'ARG-BAD', 'how': h}
      for h in ('keep-names-missing', 'indentwidth-str', 'src-garbage',
                'src-missing', 'src-lexerror', 'src-parseerror')] +
-    [{'kind': 'RECURSION', 'limit': n} for n in (60, 90, 120, 160, 220)]
+    [{'kind': 'RECURSION', 'limit': n} for n in (60, 90, 120, 160, 220)] +
+    [{'kind': 'TMP-ERR'}]
 )
 BUILD_INTERNAL_FAULTS = (
     [{'kind': 'ARG-BAD', 'how': h}
      for h in ('conflict', 'missing-source', 'wrong-ext', 'optimize-tokens',
                'lua-format', 'require-missing', 'out-garbage',
                'keep-names-missing', 'lua-syntax-error', 'out-wrong-ext')] +
-    [{'kind': 'RECURSION', 'limit': n} for n in (60, 90, 120, 160, 220)]
+    [{'kind': 'RECURSION', 'limit': n} for n in (60, 90, 120, 160, 220)] +
+    [{'kind': 'TMP-ERR'}]
 )
 
 
@@ -475,6 +478,22 @@ def execute(sc, profile=False):
         rc = None
         base_limit = sys.getrecursionlimit()
         w.start_io_log()
+        tmp_saved = None
+        tmp_hits = [0]
+        if fk == 'TMP-ERR':
+            # the scratch storage the writer stages its output in is full
+            import errno as _errno
+            import tempfile as _tempfile
+
+            def _no_tmp(*a, **k):
+                tmp_hits[0] += 1
+                raise OSError(_errno.ENOSPC, 'injected: no space for a '
+                              'temporary file')
+            names = ('TemporaryFile', 'NamedTemporaryFile', 'mkstemp',
+                     'SpooledTemporaryFile', 'mkdtemp')
+            tmp_saved = {n: getattr(_tempfile, n) for n in names}
+            for n in names:
+                setattr(_tempfile, n, _no_tmp)
         with er as ctl:
             try:
                 if recursion:
@@ -487,6 +506,10 @@ def execute(sc, profile=False):
             finally:
                 sys.settrace(None)
                 sys.setrecursionlimit(base_limit)
+                if tmp_saved is not None:
+                    import tempfile as _tempfile
+                    for n, f in tmp_saved.items():
+                        setattr(_tempfile, n, f)
         opens = w.stop_io_log()
         afters = [w.snap(d) for d in dests]
         after = afters[0]
@@ -500,6 +523,8 @@ def execute(sc, profile=False):
             fired = ctl['fired']
         elif fk == 'CRASH':
             fired = 'CRASH' if tracer.fired else None
+        elif fk == 'TMP-ERR':
+            fired = fk if tmp_hits[0] else None
         elif fk != 'NONE':
             fired = fk if failed else None
         if fired:
